@@ -180,8 +180,9 @@ def harness_dir():
     if not os.path.exists(dst) or open(dst).read() != man:
         open(dst, "w").write(man)
     lock = os.path.join(HARNESS, "Cargo.lock")
-    if os.path.exists(lock) and not os.path.exists(os.path.join(alt, "Cargo.lock")):
-        open(os.path.join(alt, "Cargo.lock"), "w").write(open(lock).read())
+    alt_lock = os.path.join(alt, "Cargo.lock")
+    if os.path.exists(lock) and (not os.path.exists(alt_lock) or open(alt_lock).read() != open(lock).read()):
+        open(alt_lock, "w").write(open(lock).read())
     return alt
 
 
